@@ -141,15 +141,20 @@ func verifHosts(l *roundRobinLoadBalancer) []*Host { return l.hosts.Load().([]*H
 
 // Conn.Write enqueues the sender for the writer goroutine or fails; it changes nothing the
 // contracts talk about.
-//@ func proxycore.Conn.Write [C01]
-//@   requires c != nil
+// Conn.Write: the message is queued for the writer goroutine, or the connection is closed - there is no
+// third outcome (C01 "never none as long as the client stays connected", C14 "exactly one write").
+//@ func proxycore.Conn.Write [C01, C14]
+//@   local $cwQueued bool = false
+//@   requires c != nil && sender != nil
+//@   after select#1 set $cwQueued = (selidx == 0)
+//@   ensures queued-or-closed: (result == nil ==> $cwQueued) && (result != nil ==> !$cwQueued && closed(c.closed))
 //@   modifies nothing
 
 // ConnectSession as seen by its callers: network activity and fresh objects only; the session it
 // returns carries exactly the configuration it was asked for (C07).
 // Only errors are sent on a session's failure channel (checked at the sends, assumed at the receive).
 //@ type proxycore.Session
-//@   chan failed: v != nil
+//@   chan failed open: v != nil
 
 //@ func proxycore.Cluster.Listen [C07]
 //@   requires c != nil
@@ -449,6 +454,10 @@ func verifHosts(l *roundRobinLoadBalancer) []*Host { return l.hosts.Load().([]*H
 //@   immutable: conn, closed, messages, recv, writer, reader, mu
 //@   guarded_by mu: err
 //@   invariant (self.err != nil) == closed(self.closed) [C17]
+// nothing is ever sent on "closed": a receive from it completes only once it has been closed;
+// what is queued for the writer is a sender
+//@   chan closed: false
+//@   chan messages: v != nil
 
 //@ func proxycore.Conn.Close [C14, C17]
 //@   preserves-type proxycore.Cluster, proxycore.ClusterConfig
@@ -481,8 +490,9 @@ func verifHosts(l *roundRobinLoadBalancer) []*Host { return l.hosts.Load().([]*H
 //@   ensures closed-then-notified-once: $rdClosing == 1 && $rdClosedFirst
 //@   modifies *
 
-//@ func proxycore.Conn.Err [C18]
+//@ func proxycore.Conn.Err [C18, C01]
 //@   requires c != nil
+//@   ensures closed-has-error: old(closed(c.closed)) ==> result != nil
 //@   modifies nothing
 
 //@ func proxycore.Conn.LocalAddr
